@@ -126,22 +126,33 @@ func (r *ComDoc) makeFreeSectors(count int, short bool) []SecID {
 // there are no more sectors.
 func (r *ComDoc) readSAT() error {
 	count := r.SectorSize / 4
-	sat := make([]SecID, count*int(r.Header.SATSectors))
-	position := 0
+	// the table grows as its sectors are actually read, the header's count is only a limit
+	var sat []SecID
+	block := make([]SecID, count)
+	sectors := 0
 	for _, sector := range r.MSAT {
 		if sector < 0 {
 			continue
 		}
-		if position >= len(sat) {
+		if sectors >= int(r.Header.SATSectors) {
 			return errors.New("msat has more sectors than indicated")
 		}
-		if err := r.readSectorStruct(sector, sat[position:position+count]); err != nil {
+		if err := r.readSectorStruct(sector, block); err != nil {
 			return err
 		}
-		position += count
+		sat = append(sat, block...)
+		sectors++
 	}
 	r.SAT = sat
 	return nil
+}
+
+// Follow a sector chain by one step, refusing sector IDs the table does not cover
+func nextInChain(sat []SecID, sector SecID) (SecID, error) {
+	if sector < 0 || int(sector) >= len(sat) {
+		return 0, errors.New("sector chain leaves the allocation table")
+	}
+	return sat[sector], nil
 }
 
 // Write the new sector allocation table to the listed sector IDs
